@@ -59,6 +59,37 @@ def check(run, prog, tier):
     run.rule("C14-J", "the temperature of a molecule is looked up over all its environments (every transition, and the matrix "
                       "of correlation functions it may be mapped on), through attributes that exist", minimum=3)
     rule_J(run, prog)
+    run.rule("C14-K", "a temperature of zero is a temperature: where `None` stands for 'take the temperature of the bath', "
+                      "the parameter is tested with `is None`, never for its truth value (0 K is falsy)", minimum=3)
+    rule_K(run, prog)
+
+
+def rule_K(run, prog):
+    """'... at temperature 0 K the state is the pure lowest-energy state': the builders take `temperature=None` to mean
+    'not given - use the temperature of the environment'.  A truth-value test of the parameter (`if not temperature`,
+    `temperature or ...`) sends an explicit 0 / 0.0 down the same path as None, so the state requested for 0 K is
+    silently the state at the bath temperature.  Every function of the package with such a parameter is examined; tests
+    made after the name has been re-bound (the None resolved) are zero tests and are left alone."""
+    from .. import sentinel
+    rid = "C14-K"
+    n = 0
+    for f in prog.all_functions():
+        if ".tests." in f.qualname or ".wizard." in f.qualname or not hasattr(f.node, "args"):
+            continue
+        for p in sentinel.none_default_params(f.node, names=("temperature", "temp", "T", "Temperature")):
+            n += 1
+            prog.consulted.add(f.relpath)
+            reb = sentinel.rebinding_lines(f.node, p)
+            uses = [(u, e) for u, e in sentinel.truthiness_uses(f.node, lambda e: isinstance(e, ast.Name) and e.id == p)
+                    if not any(l < e.lineno for l in reb)]
+            run.obligation(rid, f.short, not uses, key="none-is-not-zero:" + p,
+                           message="%s tests its parameter `%s` (default None = 'take it from the bath') for its truth value in `%s`: "
+                                   "an explicit temperature of 0 K is treated as not given, and the state handed out is the one of "
+                                   "the bath temperature instead of the pure lowest-energy state"
+                                   % (f.short, p, norm(uses[0][0].test if hasattr(uses[0][0], "test") else uses[0][0])[:60] if uses else ""),
+                           loc=f.loc(uses[0][1]) if uses else f.loc(f.node), sample={"parameter": p})
+    if n < 3:
+        raise AnalysisError("C14-K: only %d functions with a temperature=None parameter (4 confirmed)" % n)
 
 
 def rule_G(run, prog):
